@@ -92,6 +92,11 @@ type cellShadow struct {
 	wsite string
 	reads VC
 	rsite []string
+	// last sync/atomic read-modify-write or store of the cell (at = thread+1, 0 none): an unordered plain access
+	// of the same cell is a race, as it is for the Go race detector
+	at    int32
+	ac    int32
+	asite string
 }
 
 func (in *Interp) newThread(name string) *Thread {
@@ -695,6 +700,7 @@ func registerSyncNatives() {
 			cc.th.vc.join(m.vc)
 			old := in.term(p.obj.get(p.off))
 			nv, ret := f(in, old, args)
+			in.raceAtomic(p.obj, p.off, nv != nil)
 			if nv != nil {
 				p.obj.set(p.off, nv)
 			}
@@ -801,6 +807,9 @@ func (in *Interp) raceAccess(o *Object, off, n int, write bool) {
 		if sh.wt >= 0 && int(sh.wt) != th.id && sh.wc > th.vc.at(int(sh.wt)) {
 			in.reportRace(o, i, sh.wsite, site, "write", map[bool]string{true: "write", false: "read"}[write])
 		}
+		if sh.at > 0 && int(sh.at-1) != th.id && sh.ac > th.vc.at(int(sh.at-1)) {
+			in.reportRace(o, i, sh.asite, site, "atomic write", map[bool]string{true: "write", false: "read"}[write])
+		}
 		if write {
 			for t, c := range sh.reads {
 				if t != th.id && c > th.vc.at(t) {
@@ -820,6 +829,44 @@ func (in *Interp) raceAccess(o *Object, off, n int, write bool) {
 			sh.reads[th.id] = th.vc[th.id]
 			sh.rsite[th.id] = site
 		}
+	}
+}
+
+// raceAtomic: an atomic access conflicts with plain accesses of the same cell that are not ordered before it.
+func (in *Interp) raceAtomic(o *Object, off int, write bool) {
+	if len(in.threads) < 2 || o.harness || o.lazy != nil {
+		return
+	}
+	th := in.cur
+	if th == nil || th.id < 0 {
+		return
+	}
+	site, ok := in.accessSite()
+	if !ok {
+		return
+	}
+	if o.shadow == nil {
+		o.shadow = make([]cellShadow, len(o.cells))
+		for i := range o.shadow {
+			o.shadow[i].wt = -1
+		}
+	}
+	if off >= len(o.shadow) {
+		return
+	}
+	sh := &o.shadow[off]
+	if sh.wt >= 0 && int(sh.wt) != th.id && sh.wc > th.vc.at(int(sh.wt)) {
+		in.reportRace(o, off, sh.wsite, site, "write", "atomic access")
+	}
+	if write {
+		for t, c := range sh.reads {
+			if t != th.id && c > th.vc.at(t) {
+				in.reportRace(o, off, sh.rsite[t], site, "read", "atomic write")
+			}
+		}
+		sh.at = int32(th.id) + 1
+		sh.ac = th.vc[th.id]
+		sh.asite = site
 	}
 }
 
